@@ -780,6 +780,8 @@ class BigBufSuite(Qcow2Suite):
 
 SUITES = {"qcow2": Qcow2Suite(), "bigbuf": BigBufSuite()}
 
-from harness.readers import under_O, under_debug  # noqa: E402
+from harness.readers import under_O, under_debug, under_bufsize  # noqa: E402
 SUITES["qcow2_pyO"] = under_O(SUITES["qcow2"])
 SUITES["qcow2_dbg"] = under_debug(SUITES["qcow2"])
+SUITES["qcow2_buf12288"] = under_bufsize(SUITES["qcow2"], 12288)
+SUITES["qcow2_buf1536"] = under_bufsize(SUITES["qcow2"], 1536, n=4)
